@@ -413,3 +413,70 @@ impl SketchFacade {
 pub fn sketch_capacity(max_capacity: u64) -> u32 {
     crate::common::sketch_capacity(max_capacity)
 }
+
+// ---------------------------------------------------------------------------
+// Wrapper around the concurrent map: every WRITE operation on it is a blocking
+// point for the scheduler (runnable only while the key's shard is not locked by
+// an iterator), wherever in the crate the operation is written. Everything else
+// is reached through `Deref`.
+// ---------------------------------------------------------------------------
+
+#[cfg(feature = "sync")]
+pub struct VerifMap<K, V, S>(dashmap::DashMap<K, V, S>);
+
+#[cfg(feature = "sync")]
+impl<K, V, S> std::ops::Deref for VerifMap<K, V, S> {
+    type Target = dashmap::DashMap<K, V, S>;
+    fn deref(&self) -> &Self::Target {
+        &self.0
+    }
+}
+
+#[cfg(feature = "sync")]
+impl<K, V, S> VerifMap<K, V, S>
+where
+    K: Eq + std::hash::Hash,
+    S: std::hash::BuildHasher + Clone,
+{
+    pub(crate) fn new(map: dashmap::DashMap<K, V, S>) -> Self {
+        Self(map)
+    }
+
+    #[inline]
+    fn gate<Q>(&self, label: &'static str, key: &Q)
+    where
+        K: std::borrow::Borrow<Q>,
+        Q: std::hash::Hash + Eq + ?Sized,
+    {
+        block_until(label, &|| !self.0.try_get_mut(key).is_locked());
+    }
+
+    pub(crate) fn remove<Q>(&self, key: &Q) -> Option<(K, V)>
+    where
+        K: std::borrow::Borrow<Q>,
+        Q: std::hash::Hash + Eq + ?Sized,
+    {
+        self.gate("map.remove", key);
+        self.0.remove(key)
+    }
+
+    pub(crate) fn remove_if<Q>(&self, key: &Q, f: impl FnOnce(&K, &V) -> bool) -> Option<(K, V)>
+    where
+        K: std::borrow::Borrow<Q>,
+        Q: std::hash::Hash + Eq + ?Sized,
+    {
+        self.gate("map.remove_if", key);
+        self.0.remove_if(key, f)
+    }
+
+    #[allow(dead_code)]
+    pub(crate) fn insert(&self, key: K, value: V) -> Option<V> {
+        self.gate("map.insert", &key);
+        self.0.insert(key, value)
+    }
+
+    pub(crate) fn entry(&self, key: K) -> dashmap::mapref::entry::Entry<'_, K, V> {
+        self.gate("map.entry", &key);
+        self.0.entry(key)
+    }
+}
